@@ -1,7 +1,7 @@
 (** Run/C08.v — wire-format entry point for the C08 models (glue, no theorem
     speaks about it).  Every sequence op returns the same bundle
 
-      (input_size num_classes
+      (input_size num_classes default_event_label
        (input at each requested position)      -- sparse: (len ((i v) ...)) or () if it raises
        (label at each requested position)
        (class_index_to_event (label p) events[:p]   for requested 0 <= p < len)
@@ -32,8 +32,8 @@ Section Bundle.
   Variable oL : Lb -> sx.
   Variable osp : list Z -> sx.           (* how input vectors are printed *)
 
-  Definition bundle (size : Z) (ncls : sx) (es : list E) (ps : list Z) (ls : list Lb) : sx :=
-    L [ I size; ncls;
+  Definition bundle (size : Z) (ncls dl : sx) (es : list E) (ps : list Z) (ls : list Lb) : sx :=
+    L [ I size; ncls; dl;
         L (map (fun p => oOpt osp (ed_input ed es p)) ps);
         L (map (fun p => oOpt oL (ed_label ed es p)) ps);
         L (map (fun p =>
@@ -71,55 +71,55 @@ Definition run (s : sx) : sx :=
   | 1 => (* one-hot over melody one-hot: mn mx es ps ls *)
       let mn := xZ (a 1%nat) in let mx := xZ (a 2%nat) in
       let ed := ohs_mel mn mx in
-      bundle ed I I sparse (ed_input_size ed) (I (mel_num_classes mn mx))
+      bundle ed I I sparse (ed_input_size ed) (I (mel_num_classes mn mx)) (oOptZ (ohs_mel_default_label mn mx))
              (xZs (a 3%nat)) (xZs (a 4%nat)) (xZs (a 5%nat))
   | 2 => (* one-hot index over melody one-hot *)
       let mn := xZ (a 1%nat) in let mx := xZ (a 2%nat) in
       let ed := ohi_mel mn mx in
-      bundle ed I I sparse (ed_input_size ed) (I (mel_num_classes mn mx))
+      bundle ed I I sparse (ed_input_size ed) (I (mel_num_classes mn mx)) (oOptZ (ohs_mel_default_label mn mx))
              (xZs (a 3%nat)) (xZs (a 4%nat)) (xZs (a 5%nat))
   | 3 => (* lookback over melody one-hot: mn mx dists bits es ps ls *)
       let mn := xZ (a 1%nat) in let mx := xZ (a 2%nat) in
       let ds := xZs (a 3%nat) in let bits := xZ (a 4%nat) in
       let ed := lb_mel mn mx ds bits in
       bundle ed I I sparse (ed_input_size ed) (I (lb_num_classes (mel_num_classes mn mx) ds))
-             (xZs (a 5%nat)) (xZs (a 6%nat)) (xZs (a 7%nat))
+             (oOptZ (lb_mel_default_label mn mx)) (xZs (a 5%nat)) (xZs (a 6%nat)) (xZs (a 7%nat))
   | 4 => (* key melody: mn mx dists bits es ps ls *)
       let mn := xZ (a 1%nat) in let mx := xZ (a 2%nat) in
       let ds := xZs (a 3%nat) in let bits := xZ (a 4%nat) in
       let ed := km mn (mx - mn) ds bits in
       bundle ed I I sparse (ed_input_size ed) (I (km_num_classes (mx - mn) ds))
-             (xZs (a 5%nat)) (xZs (a 6%nat)) (xZs (a 7%nat))
+             (oOptZ (Some (km_default_label (mx - mn)))) (xZs (a 5%nat)) (xZs (a 6%nat)) (xZs (a 7%nat))
   | 5 => (* one-hot over performance one-hot: nb ms minp maxp es ps ls *)
       let rs := perf_ranges (xZ (a 1%nat)) (xZ (a 2%nat)) (xZ (a 3%nat)) (xZ (a 4%nat)) in
       let ed := ohs_perf (xZ (a 1%nat)) (xZ (a 2%nat)) (xZ (a 3%nat)) (xZ (a 4%nat)) in
       bundle ed oPe I sparse (ed_input_size ed) (I (oh_num_classes rs))
-             (map xPe (xL (a 5%nat))) (xZs (a 6%nat)) (xZs (a 7%nat))
+             (oOptZ (perf_default_label (xZ (a 1%nat)) (xZ (a 2%nat)) (xZ (a 3%nat)) (xZ (a 4%nat)))) (map xPe (xL (a 5%nat))) (xZs (a 6%nat)) (xZs (a 7%nat))
   | 6 => (* lookback over performance one-hot: nb ms minp maxp dists bits es ps ls *)
       let ms := xZ (a 2%nat) in
       let rs := perf_ranges (xZ (a 1%nat)) ms (xZ (a 3%nat)) (xZ (a 4%nat)) in
       let ds := xZs (a 5%nat) in
       let ed := lb_perf (xZ (a 1%nat)) ms (xZ (a 3%nat)) (xZ (a 4%nat)) ds (xZ (a 6%nat)) in
       bundle ed oPe I sparse (ed_input_size ed) (I (lb_num_classes (oh_num_classes rs) ds))
-             (map xPe (xL (a 7%nat))) (xZs (a 8%nat)) (xZs (a 9%nat))
+             (oOptZ (perf_default_label (xZ (a 1%nat)) ms (xZ (a 3%nat)) (xZ (a 4%nat)))) (map xPe (xL (a 7%nat))) (xZs (a 8%nat)) (xZs (a 9%nat))
   | 7 => (* modulo performance: nb ms es ps ls ; the input entries of the bundle are the LAYOUT
             (size, valid-bit offset, table, row, row mod 12), the harness rebuilds the float vector *)
       let nb := xZ (a 1%nat) in let ms := xZ (a 2%nat) in
       let ed := mp nb ms in
       bundle ed oPe I oZs (ed_input_size ed) (I (mp_num_classes nb ms))
-             (map xPe (xL (a 3%nat))) (xZs (a 4%nat)) (xZs (a 5%nat))
+             (oOptZ (perf_default_label nb ms K_PERF_MIN_PITCH K_PERF_MAX_PITCH)) (map xPe (xL (a 3%nat))) (xZs (a 4%nat)) (xZs (a 5%nat))
   | 8 => (* note performance: nvb max_shift max_dur minp maxp es ps ls *)
       match np_make (xZ (a 1%nat)) (xZ (a 2%nat)) (xZ (a 3%nat)) (xZ (a 4%nat)) (xZ (a 5%nat)) with
       | NpOk c =>
           L [ oNpCfg (NpOk c);
               bundle (np c) oNpe oZs sparse (np_input_size c) (oZs (np_classes c))
-                     (map xNpe (xL (a 6%nat))) (xZs (a 7%nat)) (map xZs (xL (a 8%nat))) ]
+                     (L [oZs (np_default_label c)]) (map xNpe (xL (a 6%nat))) (xZs (a 7%nat)) (map xZs (xL (a 8%nat))) ]
       | r => L [oNpCfg r]
       end
   | 9 => (* pianoroll: size es ps ls *)
       let size := xZ (a 1%nat) in
       bundle (pr size) oZs I sparse size (I (pr_num_classes size))
-             (map xZs (xL (a 2%nat))) (xZs (a 3%nat)) (xZs (a 4%nat))
+             (oOptZ (Some pr_default_label)) (map xZs (xL (a 2%nat))) (xZs (a 3%nat)) (xZs (a 4%nat))
   | 10 => (* conditional: control = one-hot over melody one-hot (cmn cmx), target = lookback over
              melody one-hot (mn mx dists bits); cs ts ps ls *)
       let cmn := xZ (a 1%nat) in let cmx := xZ (a 2%nat) in
@@ -130,6 +130,7 @@ Definition run (s : sx) : sx :=
       let cs := xZs (a 7%nat) in let ts := xZs (a 8%nat) in
       let ps := xZs (a 9%nat) in let ls := xZs (a 10%nat) in
       L [ I (cond_input_size ctl tgt); I (lb_num_classes (mel_num_classes mn mx) ds);
+          oOptZ (lb_mel_default_label mn mx);
           L (map (fun p => oOpt sparse (cond_input ctl tgt cs ts p)) ps);
           L (map (fun p => oOpt I (cond_label tgt ts p)) ps);
           oOpt (fun r : list (list Z) * list Z => L [L (map sparse (fst r)); oZs (snd r)])
